@@ -49,11 +49,19 @@ def check_reader_quoting(repo, rep, cons):
     rx = _re.compile(pat)
     needs_doubling = rx.fullmatch(Q + "it" + Q + "s" + Q) is None and rx.fullmatch(Q + "it" + Q + Q + "s" + Q) is not None
     # (a) the wrapped form
-    wraps = [n for n in body_walk(ex) if isinstance(n, ast.Assign) and isinstance(n.value, ast.JoinedStr) and len(n.value.values) == 3
-             and all(isinstance(n.value.values[i], ast.Constant) and n.value.values[i].value == Q for i in (0, 2)) and isinstance(n.value.values[1], ast.FormattedValue)]
+    def wrapped_inner(v):
+        """the expression between the quotes of Q + <x> + Q in either spelling, else None"""
+        if isinstance(v, ast.JoinedStr) and len(v.values) == 3 and all(isinstance(v.values[i], ast.Constant) and v.values[i].value == Q for i in (0, 2)) \
+                and isinstance(v.values[1], ast.FormattedValue):
+            return v.values[1].value
+        if isinstance(v, ast.BinOp) and isinstance(v.op, ast.Add) and try_const(v.right) == Q and isinstance(v.left, ast.BinOp) and isinstance(v.left.op, ast.Add) \
+                and try_const(v.left.left) == Q:
+            return v.left.right
+        return None
+    wraps = [n for n in body_walk(ex) if isinstance(n, ast.Assign) and wrapped_inner(n.value) is not None]
     if not wraps:
         raise AnalysisError("expand_ref: the statement that puts a name in quotes was not found")
-    inner = wraps[0].value.values[1].value
+    inner = wrapped_inner(wraps[0].value)
     doubled = isinstance(inner, ast.Call) and last_attr(inner.func) == "replace" and [try_const(a) for a in inner.args] == [Q, Q + Q]
     ok = doubled or not needs_doubling
     rep.ob("C18.R4", wraps[0], "a name the reader puts in quotes has its embedded quotes doubled, as the tokenizer's quoted-name pattern requires", ok,
